@@ -1,5 +1,6 @@
 """C19: post-analysis data screening removes exactly what it reports."""
 import json
+import os
 import math
 import warnings
 from fractions import Fraction
@@ -24,7 +25,7 @@ TRUSTED_BASE = [
 
 
 def gen_frame(rng):
-  n_c, n_t = rng.randint(2, 4), rng.randint(2, 4)
+  n_c, n_t = rng.choice([1, 2, 2, 3, 4, 4, 6, 8]), rng.choice([1, 2, 2, 3, 4, 4, 6, 8])      # below four geos in all, noisy-geo detection is off
   n_un = rng.choice([0, 0, 1])
   n_pre, n_test = rng.choice([10, 14, 20, 30]), rng.choice([3, 5, 7])
   T = n_pre + n_test
@@ -35,6 +36,8 @@ def gen_frame(rng):
   names = {'geo': 'geo', 'date': 'date', 'period': 'period', 'group': 'group', 'response': 'response'}
   if rng.random() < 0.3:
     names.update({'geo': 'market', 'group': 'assignment', 'response': 'sales'})
+  if rng.random() < 0.3:
+    names.update({'date': 'day', 'period': 'phase'})
   noisy_planted = rng.random() < 0.5
   outlier_planted = rng.random() < 0.5
   out_day = rng.randrange(T) if outlier_planted else None
@@ -78,7 +81,26 @@ def to_df(fr, rows=None):
   return df
 
 
+class FitTimeout(Exception):
+  pass
+
+
+def _alarm(signum, frame):
+  raise FitTimeout('fit did not terminate within the time limit')
+
+
 def real_fit(fr, rows=None):
+  import signal
+  old = signal.signal(signal.SIGALRM, _alarm)
+  signal.alarm(30)          # a fit that hangs is reported, not waited for
+  try:
+    return _real_fit(fr, rows)
+  finally:
+    signal.alarm(0)
+    signal.signal(signal.SIGALRM, old)
+
+
+def _real_fit(fr, rows=None):
   from matched_markets.methodology import tbrdiagnostics
   nm = fr['names']
   df = to_df(fr, rows)
@@ -128,6 +150,12 @@ def check_frame(out, rng, fr, model_lines):
   try:
     r = real_fit(fr)
   except Exception as e:
+    single = {g for g in (fr['labels'][0], fr['labels'][1]) if len({r[0] for r in fr['rows'] if r[2] == g}) == 1}
+    if isinstance(e, ValueError) and 'must be present' in str(e) and single:
+      # the only geo of a group was screened out as noisy: no experiment is left, and the class says so (both the code
+      # and the model answer ValueError); outside the quantifier "frames with both groups present"
+      out.count(None)
+      return
     out.oracle_violation(dict(facts, symptom='exception', exception=type(e).__name__), case, f'fit raised {type(e).__name__}: {str(e)[:150]}')
     return
   kept, x, y = expected(fr, r['noisy'], r['outliers'])
@@ -174,7 +202,12 @@ def check_frame(out, rng, fr, model_lines):
 def run(out, tier, model_ok=True):
   rng = core.rng_for(PROP)
   n = 60 if tier == 'quick' else 1500
-  frames = [gen_frame(rng) for _ in range(n)]
+  frames = []
+  cdir = os.path.join(core.VERIF, 'corpus', 'C19')
+  for fn in sorted(os.listdir(cdir)) if os.path.isdir(cdir) else []:      # past failures run first
+    with open(os.path.join(cdir, fn)) as f:
+      frames.append(json.load(f)['frame'])
+  frames += [gen_frame(rng) for _ in range(n)]
   model_out = None
   spans = []
   if model_ok:
